@@ -58,6 +58,11 @@ func randPosForPrint(r *rng, length int) string {
 		// "print everything" on a finite sequence: an end at or just below MaxInt (the way to print
 		// all digits in v1/v2, which have no Fwrite); label-width arithmetic must not overflow
 		toks = append(toks, fmt.Sprintf("r%d~%d", r.pick([]int{0, 3, 60}), maxInt-r.pick([]int{0, 0, 1, 5, 9, 48, 49, 50, 99, 100, 1000})))
+	} else if length >= 0 && r.coin(25) {
+		// … or an end at and around a power of ten (the label width changes there; floating-point
+		// logarithms are off by one at 10^15 and just below 10^16 … 10^18)
+		p10 := []int{1000, 100000, 1000000000, 1000000000000000, 10000000000000000, 100000000000000000, 1000000000000000000}
+		toks = append(toks, fmt.Sprintf("r%d~%d", r.pick([]int{0, 3}), r.pick(p10)+r.pick([]int{-51, -50, -1, 0, 1, 2, 49, 50, 51})))
 	}
 	return strings.Join(toks, ",")
 }
